@@ -387,6 +387,12 @@ func within(d time.Duration, f func()) bool {
 	}
 }
 
+// panicT behaves like a *testing.T whose test has completed.
+type panicT struct{ stubT }
+
+func (t *panicT) Logf(string, ...interface{})   { panic("Log in goroutine after Test has completed") }
+func (t *panicT) Errorf(string, ...interface{}) { panic("Log in goroutine after Test has completed") }
+
 type stubT struct {
 	mu     sync.Mutex
 	logs   []string
@@ -488,6 +494,10 @@ func replayWriter(kind, prior, class string, seed int64) (f *Finding) {
 		w = zaptest.NewTestingWriter(&stubT{})
 	case "testing-markfailed":
 		w = zaptest.NewTestingWriter(&stubT{}).WithMarkFailed(true)
+	case "testing-finished-t":
+		// a test that has already finished: testing.T panics in Log. Whatever the writer does about that, it does
+		// not report a short count without an error
+		w = zaptest.NewTestingWriter(&panicT{})
 	case "bws-over-short-sink", "bws-over-failing-sink":
 		var sink zapcore.WriteSyncer = zapcore.AddSync(c13ShortSink{})
 		if kind == "bws-over-failing-sink" {
@@ -507,6 +517,19 @@ func replayWriter(kind, prior, class string, seed int64) (f *Finding) {
 		w = b
 	default:
 		return &Finding{Key: "HARNESS/writer-kind", What: kind}
+	}
+	if kind == "testing-finished-t" {
+		var n int
+		var err error
+		panicked := func() (p2 bool) {
+			defer func() { p2 = recover() != nil }()
+			n, err = w.Write(p)
+			return false
+		}()
+		if !panicked && n < len(p) && err == nil {
+			return &Finding{Key: "C13/writer-count:testing", What: fmt.Sprintf("testing writer over a finished test (Logf panics) returned (%d, nil) for a %d-byte payload of class %s: a short count without an error", n, len(p), class)}
+		}
+		return nil
 	}
 	// what the writer accepted before the observed Write
 	for _, pp := range map[string][]string{"nothing": nil, "fragment": {"partial line without its end"}, "fragments": {"first ", "second ", "third"}, "line": {"a complete line\n"}}[prior] {
